@@ -40,6 +40,13 @@ set — `onnx.reference.ReferenceEvaluator` on the extracted graph must return t
 outputs (two input assignments) and the region's function of its inputs under perturbed boundary values
 (independent interpreter).  The region search alone is checked on sorted and unsorted sources.  Implicit usage
 is compared with a brute-force free-variable computation.
+
+Independence clause, strengthened: stream `types` (gen_typed: values of Sequence / Optional / nested / sparse types
+with denotations at every level, nodes in the style of SequenceAt / SequenceInsert / OptionalGetElement / SequenceMap
+/ If, cuts in the middle at such values).  The identity walk descends into the `elem_type` objects nested in a type,
+and `check_edit_independence` rebuilds the model, extracts the same cut, edits one side (dtype / denotation / shape[i] /
+metadata, then type / shape replaced) and compares a deep snapshot (harness/c13.py `snapshot`) of the other side, in
+both directions.
 """
 from __future__ import annotations
 
@@ -119,7 +126,14 @@ ASSUMPTIONS = [
     "(GraphView.clone, allow_outer_scope_values=False); the D153 post-processing edits only objects of the "
     "result (C13_frame); the C18 harness compares the identity sets on the real objects (values, nodes, "
     "graphs, shape/type/metadata objects, graph-valued Attr objects, attribute containers, sharding-spec "
-    "values); tensors and plain immutable Attr objects are shared by design",
+    "values); tensors and plain immutable Attr objects are shared by design; type objects are compared at EVERY nesting "
+    "level (the elem_type objects inside Sequence / Optional types; stream types generates regions whose boundary "
+    "inputs, initializers and node outputs carry such types), and on a fresh build of the model the oracle edits one "
+    "side after the extraction (Value.dtype, the denotation of the type object at every level, shape[i] and dimension "
+    "denotations, metadata_props / meta / doc_string of graphs, nodes and values, then Value.type / Value.shape "
+    "replaced) and compares harness/c13.py's deep snapshot of the other side before and after, in both directions: "
+    "every successful cut of the streams types / replay / necessity, the first two successful cuts of every other "
+    "check_model call (histogram edit_oracle:*)",
     "a GraphView passed as graph-like may list its nodes in any order, a subset of them, or a node several "
     "times (node_index is a dict comprehension: the last position counts; C18_order_view / C18_order_source); "
     "boundary values given by object to a view may be values that a nested graph lists or defines: the ownership "
@@ -208,19 +222,33 @@ def _ir():
     return ir
 
 
+def build_type(t: dict):
+    """t = {"wrap": [[2|3, denotation]...] (2 = Sequence, 3 = Optional, outermost first), "leaf": 0 tensor | 1 sparse
+    tensor, "dtype": n, "denot": s} (the description harness/c13.py uses); every call makes new objects"""
+    ir = _ir()
+    leaf_cls = ir.TensorType if t["leaf"] == 0 else ir.SparseTensorType
+    ty = leaf_cls(ir.DataType(t["dtype"]), denotation=t.get("denot"))
+    for k, dn in reversed(t["wrap"]):
+        ty = (ir.SequenceType if k == 2 else ir.OptionalType)(ty, denotation=dn)
+    return ty
+
+
 def build(spec: dict):
     """spec -> real IR objects.  Returns dict with vals, nodes, graphs (index = id), root, target."""
     ir = _ir()
-    F = ir.TensorType(ir.DataType.FLOAT)
-    B = ir.TensorType(ir.DataType.BOOL)
     vals = []
     for i, v in enumerate(spec["vals"]):
         t = v.get("t")
-        val = ir.Value(
-            name=v.get("name"),
-            type=(F if t == "f" else B if t == "b" else None),
-            shape=ir.Shape([1]) if t in ("f", "b") else None,
-        )
+        if v.get("ty") is not None:
+            # stream `types`: (nested) Sequence / Optional / sparse types, denotations, other dtypes
+            ty = build_type(v["ty"])
+            sh = v.get("shape", [1] if not v["ty"]["wrap"] else None)
+            shape = None if sh is None else ir.Shape(sh, denotations=v.get("shape_denots"))
+        else:
+            # one type object per value (never shared inside the source: editing one value must not retype another)
+            ty = ir.TensorType(ir.DataType.FLOAT) if t == "f" else ir.TensorType(ir.DataType.BOOL) if t == "b" else None
+            shape = ir.Shape([1]) if t in ("f", "b") else None
+        val = ir.Value(name=v.get("name"), type=ty, shape=shape)
         if v.get("init"):
             arr = np.array([v.get("data", 1.0)], dtype=np.float32 if t != "b" else np.bool_)
             val.const_value = ir.tensor(arr, name=v.get("name") or "")
@@ -412,16 +440,37 @@ def struct_graph(obs_bodies, g):
     ]
 
 
-def all_object_ids(obs: Obs, graph, acc: set, shared_ok: dict | None = None) -> None:
+_DATATYPE = None
+
+
+def type_objects(t) -> list:
+    """a type object and every type object nested in it (`elem_type` of Sequence / Optional types, any depth;
+    the `elem_type` of a tensor type is a DataType, not an object of the graph)"""
+    global _DATATYPE
+    if _DATATYPE is None:
+        _DATATYPE = _ir().DataType
+    out = []
+    while t is not None and not isinstance(t, _DATATYPE) and len(out) < 64:
+        out.append(t)
+        t = getattr(t, "elem_type", None)
+    return out
+
+
+def all_object_ids(obs: Obs, graph, acc: set, shared_ok: dict | None = None, kinds: dict | None = None) -> None:
     """identities of everything the graph holds at any depth: graphs, nodes, values, their shape / type /
     metadata objects, graph-valued Attr objects and the attribute containers, sharding-spec values.
     `shared_ok` collects the objects that are shared by design (tensors, plain immutable Attr objects)."""
 
     def value(v):
         acc.add(id(v))
-        for o in (v.shape, v.type, v._metadata_props, v._metadata):
+        for o in (v.shape, v._metadata_props, v._metadata):
             if o is not None:
                 acc.add(id(o))
+        # the type object AND every type object nested in it (Sequence / Optional element types, any depth)
+        for depth, t in enumerate(type_objects(v.type)):
+            acc.add(id(t))
+            if kinds is not None:
+                kinds[id(t)] = "type object" if depth == 0 else f"nested element-type object (depth {depth})"
         if shared_ok is not None and v.const_value is not None:
             shared_ok.setdefault("tensor", set()).add(id(v.const_value))
 
@@ -453,7 +502,7 @@ def all_object_ids(obs: Obs, graph, acc: set, shared_ok: dict | None = None) -> 
             elif shared_ok is not None:
                 shared_ok.setdefault("plain_attr", set()).add(id(attr))
         for b in obs.bodies(n):
-            all_object_ids(obs, b, acc, shared_ok)
+            all_object_ids(obs, b, acc, shared_ok, kinds)
 
 
 # --------------------------------------------------------------------------- brute-force specification (independent)
@@ -750,6 +799,7 @@ def check_model(part, spec: dict, cuts: list, tag: str):
     depth = spec_depth(spec["root"])
     ev = {"src": {}, "usable": True, "source_valid": None}
     wf = spec.get("wellformed", True)
+    edit_checked = 0
     for (ins, outs), mres in zip(cuts, outs_model):
         case = {"spec": spec, "ins": ins, "outs": outs}
         r, ires = run_real(objs, ins, outs)
@@ -908,14 +958,24 @@ def check_model(part, spec: dict, cuts: list, tag: str):
         # independence + structure
         res_ids: set = set()
         res_shared: dict = {}
-        all_object_ids(obs, r, res_ids, res_shared)
+        res_kinds: dict = {}
+        all_object_ids(obs, r, res_ids, res_shared, res_kinds)
         shared = res_ids & src_ids
         if res_shared.get("plain_attr", set()) & src_shared.get("plain_attr", set()):
             part.count("shared_by_design:plain_attr_objects")
         if res_shared.get("tensor", set()) & src_shared.get("tensor", set()):
             part.count("shared_by_design:tensors")
         if shared:
-            part.fail(f"extract:{sig_kind}:shares-object", "the result refers to an object of the source", {**case, "n_shared": len(shared)})
+            skinds = sorted({res_kinds.get(i, "other object") for i in shared})
+            only_nested = all(k.startswith("nested") for k in skinds)
+            part.fail(f"extract:{sig_kind}:shares-object" + (":nested-type" if only_nested else ""),
+                      "the result refers to an object of the source: " + ", ".join(skinds),
+                      {**case, "n_shared": len(shared), "shared_kinds": skinds})
+        # independence under edits: rebuild, extract again, edit one side (dtype / denotation at every nesting
+        # level / shape[i] / metadata / then the type and shape objects replaced), deep-snapshot the other side
+        if tag in EDIT_STREAMS or edit_checked < EDIT_PER_MODEL:
+            edit_checked += 1
+            check_edit_independence(part, spec, ins, outs, case, sig_kind)
         for rn in r:
             sn = objs["nodes"].get(int(rn.metadata_props.get("nid", "-1")))
             if sn is None or struct_node(obs.bodies, rn) != struct_node(obs.bodies, sn):
@@ -1009,6 +1069,141 @@ def check_model(part, spec: dict, cuts: list, tag: str):
                             break
                     except NotImplementedError:
                         part.count("perturb_skipped")
+
+
+# streams whose every successful cut gets the edit oracle; elsewhere the first EDIT_PER_MODEL successful cuts of a
+# check_model call (one rebuild + one more extract + four deep snapshots per checked cut)
+EDIT_STREAMS = ("types", "replay", "necessity")
+EDIT_PER_MODEL = 2
+
+
+def _other_dtype(ir, cur, prefer):
+    for d in prefer:
+        if d != cur:
+            return d
+    return prefer[0]
+
+
+def edit_in_place(root, salt: str, prefer) -> int:
+    """edit everything `root` owns IN PLACE through the public API: dtype of every typed value (writes through
+    Sequence / Optional types into the innermost tensor type), the denotation of the type object at every nesting
+    level, every dimension and dimension denotation of every (unfrozen) shape, metadata_props / meta / doc_string of
+    graphs, nodes and values.  Returns the number of values whose type is a Sequence / Optional type."""
+    from harness import c13
+
+    ir = _ir()
+    graphs, nodes, values = c13.walk(root)
+    n_nested = 0
+    for x in graphs + nodes + values:
+        x.metadata_props["edited"] = salt
+        x.meta["edited"] = [salt]
+        x.doc_string = "doc-" + salt
+    for v in values:
+        if v.type is not None:
+            v.dtype = _other_dtype(ir, v.dtype, prefer)
+            objs_ = type_objects(v.type)
+            n_nested += len(objs_) > 1
+            for depth, t in enumerate(objs_):
+                t.denotation = f"{salt}-{depth}"
+        if v.shape is not None and not v.shape.frozen:
+            for i in range(len(v.shape)):
+                v.shape[i] = f"{salt}_{i}"
+                v.shape.set_denotation(i, salt)
+    return n_nested
+
+
+def edit_replace(root, salt: str, prefer) -> None:
+    """replace the type and shape objects of every value `root` owns (Value.type = / Value.shape =)"""
+    from harness import c13
+
+    ir = _ir()
+    for v in c13.walk(root)[2]:
+        if v.type is not None:
+            inner = ir.TensorType(_other_dtype(ir, v.dtype, prefer), denotation="new-" + salt)
+            v.type = ir.OptionalType(ir.SequenceType(inner)) if len(type_objects(v.type)) == 1 else inner
+        v.shape = ir.Shape([salt, 3])
+
+
+def deep_snapshot(root, vals=()) -> tuple:
+    """harness/c13.py's deep structural snapshot of everything `root` owns (graphs at any depth, nodes, values with
+    their type at every nesting level, shape dims and denotations, metadata, doc strings, wiring, usage records by own
+    nodes) + type / shape / metadata of the listed values whoever owns them"""
+    from harness import c13
+
+    extra = tuple(
+        (v.name, v.doc_string, c13.type_snap(v.type),
+         None if v.shape is None else (tuple(repr(d) for d in v.shape.dims), tuple(v.shape.get_denotation(i) for i in range(len(v.shape)))),
+         tuple(v.metadata_props.items()), tuple((k, repr(x)) for k, x in v.meta.items()))
+        for v in vals
+    )
+    return (c13.snapshot(root), extra)
+
+
+def snapshot_diff(a: tuple, b: tuple) -> str:
+    """first differing value / node / graph of two deep snapshots, for the report"""
+    (ta, ga, na, va), ea = a
+    (tb, gb, nb, vb), eb = b
+    for what, xs, ys in (("value", va, vb), ("node", na, nb), ("graph", ga, gb), ("listed value", ea, eb)):
+        for i, (x, y) in enumerate(zip(xs, ys)):
+            if x != y:
+                fields = [j for j, (p, q) in enumerate(zip(x, y)) if p != q]
+                j = fields[0]
+                return f"{what} #{i} ({x[0]!r}): field {j}: {x[j]!r} -> {y[j]!r}"[:400]
+        if len(xs) != len(ys):
+            return f"number of {what}s {len(xs)} -> {len(ys)}"
+    return "top-level state differs" if ta != tb else "?"
+
+
+def check_edit_independence(part, spec: dict, ins: list, outs: list, case: dict, sig_kind: str) -> None:
+    """C18 'independent': after extract() returned, no edit of the extracted graph is visible in the source and no
+    edit of the source is visible in the extracted graph.  Works on a fresh build of the model (the objects of the
+    cut under test stay as they are for the following cuts)."""
+    ir = _ir()
+    objs2 = build(spec)
+    r2, ires2 = run_real(objs2, ins, outs)
+    if r2 is None:
+        part.disagree("extract is not deterministic: the same cut on a rebuilt model raised", case, None, ires2)
+        return
+    src = objs2["root"]
+    D = ir.DataType
+    before_src = deep_snapshot(src, objs2["vals"])
+    # ---- edit the RESULT, look at the source
+    n_nested = edit_in_place(r2, "result", (D.DOUBLE, D.INT32))
+    part.count("edit_oracle:" + ("with-nested-types" if n_nested else "tensor-types-only"))
+    after = deep_snapshot(src, objs2["vals"])
+    if after != before_src:
+        part.fail(f"extract:{sig_kind}:edit-of-result-changes-source",
+                  "editing the extracted graph in place (dtype / denotation / shape[i] / metadata of its values) changed the "
+                  "source graph: " + snapshot_diff(before_src, after), case)
+        before_src = after
+    edit_replace(r2, "result", (D.INT8, D.UINT8))
+    after = deep_snapshot(src, objs2["vals"])
+    if after != before_src:
+        part.fail(f"extract:{sig_kind}:retype-of-result-changes-source",
+                  "replacing type / shape objects of the extracted graph's values changed the source graph: "
+                  + snapshot_diff(before_src, after), case)
+    # ---- edit the SOURCE, look at the result (the same cut extracted from another fresh build)
+    objs3 = build(spec)
+    r3, _ = run_real(objs3, ins, outs)
+    if r3 is None:
+        return
+    before_res = deep_snapshot(r3)
+    edit_in_place(objs3["root"], "source", (D.INT64, D.FLOAT16))
+    for v in objs3["vals"]:  # boundary values of a view that no graph of the root owns
+        if v.type is not None and v.graph is None and v.producer() is None:
+            v.dtype = _other_dtype(ir, v.dtype, (D.INT64, D.FLOAT16))
+    after = deep_snapshot(r3)
+    if after != before_res:
+        part.fail(f"extract:{sig_kind}:edit-of-source-changes-result",
+                  "editing the source graph in place after the extraction (dtype / denotation / shape[i] / metadata of its "
+                  "values) changed the extracted graph: " + snapshot_diff(before_res, after), case)
+        before_res = after
+    edit_replace(objs3["root"], "source", (D.INT16, D.UINT16))
+    after = deep_snapshot(r3)
+    if after != before_res:
+        part.fail(f"extract:{sig_kind}:retype-of-source-changes-result",
+                  "replacing type / shape objects of the source's values changed the extracted graph: "
+                  + snapshot_diff(before_res, after), case)
 
 
 def last_occurrences(nodes: list) -> list:
@@ -1293,6 +1488,195 @@ def gen_names(rng: random.Random) -> dict:
 
     root = graph(0, [], rng.randrange(1, 6), True)
     return {"vals": vals, "root": root, "target": {"kind": "graph"}, "evaluable": False, "sorted": True, "wellformed": True}
+
+
+_TY_DTYPES = [1, 7, 6, 10, 9, 11]  # FLOAT INT64 INT32 FLOAT16 BOOL DOUBLE
+
+
+def gen_typed(rng: random.Random, n_nodes: int, max_depth: int = 2) -> dict:
+    """regions whose values carry (nested) Sequence / Optional types: boundary inputs, initializers and node outputs
+    typed Sequence(T), Optional(T), Optional(Sequence(T)), Sequence(Sequence(T)), ... with T a tensor or sparse tensor
+    type, denotations at every level, other dtypes, symbolic / missing shapes; nodes in the style of SequenceAt /
+    SequenceInsert / SequenceConstruct / Optional / OptionalGetElement / SequenceMap / If (operator names are free in
+    this IR: the region search reads only the wiring); unique names, sorted, well scoped"""
+    vals: list[dict] = []
+    cnt = {"n": 0, "g": 0}
+
+    def den():
+        return rng.choice([None, None, None, "IMAGE", "TEXT"])
+
+    def mkty(wrap, dtype=None, leaf=None):
+        return {"wrap": [[k, den()] for k in wrap], "leaf": (0 if rng.random() < 0.9 else 1) if leaf is None else leaf,
+                "dtype": rng.choice(_TY_DTYPES) if dtype is None else dtype, "denot": den()}
+
+    def wrap_of(v):
+        return [k for k, _ in vals[v]["ty"]["wrap"]]
+
+    def newval(ty, init=False):
+        i = len(vals)
+        d = {"name": ("w" if init else "v") + str(i), "t": "s", "ty": ty}
+        if init:
+            d["init"] = True
+            d["data"] = 1.0
+        if not ty["wrap"]:
+            sh = rng.choice([[1], [1], [2, "n"], [], None])
+            d["shape"] = sh
+            if sh and rng.random() < 0.3:
+                d["shape_denots"] = [rng.choice([None, "DATA_BATCH"]) for _ in sh]
+        elif rng.random() < 0.15:
+            d["shape"] = [1]  # a shape on a non-tensor value: meaningless in ONNX, representable here
+        else:
+            d["shape"] = None
+        vals.append(d)
+        return i
+
+    def rand_wrap():
+        return rng.choice([[2], [2], [3], [3, 2], [2, 2], [3, 2, 2], [2, 3]])
+
+    def like(v, wrap=None, dtype=None):
+        t = vals[v]["ty"]
+        return mkty(wrap_of(v) if wrap is None else wrap, t["dtype"] if dtype is None else dtype, t["leaf"])
+
+    def graph(depth, outer, n, root):
+        gid = cnt["g"]
+        cnt["g"] += 1
+        inputs, inits = [], []
+        if root:
+            inputs.append(newval(mkty([], leaf=0)))
+            for _ in range(rng.randrange(1, 4)):
+                inputs.append(newval(mkty(rand_wrap())))
+        else:
+            for _ in range(rng.randrange(0, 2)):
+                inputs.append(newval(mkty(rand_wrap() if rng.random() < 0.7 else [])))
+        for _ in range(rng.randrange(0, 3) if root else rng.randrange(0, 2)):
+            # an initializer is a tensor; one declared with a Sequence type is constructible and cloned the same way
+            inits.append(newval(mkty([2] if rng.random() < 0.25 else [], dtype=1, leaf=0), init=True))
+        for w in inits:
+            if rng.random() < 0.25:
+                inputs.insert(rng.randrange(len(inputs) + 1), w)
+        local = list(dict.fromkeys(inputs + inits))
+        nodes = []
+        for _ in range(n):
+            pool = outer + local
+
+            def pick(pred):
+                c = [v for v in pool if pred(wrap_of(v))]
+                lc = [v for v in c if v in local]
+                if lc and rng.random() < 0.7:
+                    return rng.choice(lc)
+                return rng.choice(c) if c else None
+
+            tensor = lambda: pick(lambda w: not w)  # noqa: E731
+            seq = lambda: pick(lambda w: w[:1] == [2])  # noqa: E731
+            opt = lambda: pick(lambda w: w[:1] == [3])  # noqa: E731
+            anyv = lambda: pick(lambda w: True)  # noqa: E731
+            nid = cnt["n"]
+            cnt["n"] += 1
+            ops = ["SequenceConstruct", "SplitToSequence", "Identity", "Optional", "Add"]
+            if seq() is not None:
+                ops += ["SequenceAt", "SequenceInsert", "SequenceInsert", "SequenceErase", "SequenceLength", "ConcatFromSequence"]
+                if depth < max_depth:
+                    ops += ["SequenceMap", "SequenceMap"]
+            if opt() is not None:
+                ops += ["OptionalGetElement", "OptionalGetElement", "OptionalHasElement"]
+            if depth < max_depth:
+                ops += ["If"]
+            op = rng.choice(ops)
+            d = {"n": nid, "op": op, "dom": "", "ins": [], "outs": [], "bodies": []}
+            t0 = tensor()
+            if op == "SequenceConstruct":
+                d["ins"] = [x for x in (tensor() for _ in range(rng.randrange(1, 4))) if x is not None]
+                d["outs"] = [newval(like(d["ins"][0], wrap=[2]) if d["ins"] else mkty([2]))]
+            elif op == "SplitToSequence":
+                d["ins"] = [x for x in (t0, tensor() if rng.random() < 0.5 else None) if x is not None]
+                d["outs"] = [newval(like(t0, wrap=[2]) if t0 is not None else mkty([2]))]
+            elif op == "Identity":
+                x = anyv()
+                d["ins"] = [x] if x is not None else []
+                d["outs"] = [newval(like(x) if x is not None else mkty([]))]
+            elif op == "Optional":
+                x = pick(lambda w: w[:1] != [3] and len(w) < 3)
+                d["ins"] = [x] if x is not None and rng.random() < 0.85 else []
+                d["outs"] = [newval(like(x, wrap=[3] + wrap_of(x)) if x is not None else mkty([3, 2]))]
+            elif op == "Add":
+                d["ins"] = [x for x in (t0, tensor()) if x is not None]
+                d["outs"] = [newval(like(t0) if t0 is not None else mkty([]))]
+            elif op == "SequenceAt":
+                x = seq()
+                d["ins"] = [x] + ([t0] if t0 is not None else [])
+                d["outs"] = [newval(like(x, wrap=wrap_of(x)[1:]))]
+            elif op in ("SequenceInsert", "SequenceErase"):
+                x = seq()
+                el = pick(lambda w: w == wrap_of(x)[1:]) if op == "SequenceInsert" else None
+                d["ins"] = [x] + ([el] if el is not None else []) + ([t0] if t0 is not None and rng.random() < 0.5 else [])
+                d["outs"] = [newval(like(x))]
+            elif op == "SequenceLength":
+                d["ins"] = [seq()]
+                d["outs"] = [newval(mkty([], dtype=7, leaf=0))]
+            elif op == "ConcatFromSequence":
+                x = seq()
+                d["ins"] = [x]
+                d["outs"] = [newval(like(x, wrap=[]))]
+            elif op == "OptionalGetElement":
+                x = opt()
+                d["ins"] = [x]
+                d["outs"] = [newval(like(x, wrap=wrap_of(x)[1:]))]
+            elif op == "OptionalHasElement":
+                d["ins"] = [opt()]
+                d["outs"] = [newval(mkty([], dtype=9, leaf=0))]
+            elif op == "SequenceMap":
+                x = seq()
+                body = graph(depth + 1, pool, rng.randrange(1, 3), False)
+                d["ins"] = [x] + ([anyv()] if rng.random() < 0.4 else [])
+                d["bodies"] = [["g", "body", body]]
+                d["outs"] = [newval(like(o, wrap=([2] + wrap_of(o))[:3])) for o in body["outputs"]] or [newval(like(x))]
+            elif op == "If":
+                tb = graph(depth + 1, pool, rng.randrange(1, 3), False)
+                eb = graph(depth + 1, pool, rng.randrange(1, 3), False)
+                d["ins"] = [t0] if t0 is not None else []
+                d["bodies"] = [["g", "then_branch", tb], ["g", "else_branch", eb]] if rng.random() < 0.7 else [["gs", "branches", [tb, eb]]]
+                d["outs"] = [newval(like(o)) for o in tb["outputs"]] or [newval(mkty(rand_wrap()))]
+            nodes.append(d)
+            local = local + d["outs"]
+        produced = [v for nd in nodes for v in nd["outs"]]
+        nested_typed = [v for v in produced if wrap_of(v)]
+        cand = nested_typed if nested_typed and rng.random() < 0.8 else (produced or local)
+        outputs = rng.sample(cand, k=min(len(cand), rng.randrange(1, 3))) if root else cand[-1:]
+        return {"g": gid, "inputs": inputs, "inits": inits, "outputs": outputs, "nodes": nodes}
+
+    root = graph(0, [], n_nodes, True)
+    return {"vals": vals, "root": root, "target": {"kind": "graph"}, "evaluable": False, "sorted": True, "wellformed": True}
+
+
+def typed_cuts(rng: random.Random, spec: dict, k: int) -> list:
+    """the whole target graph (by object and by name), cuts in the middle at values of Sequence / Optional type,
+    random cuts"""
+    gs = target_graphspec(spec)
+    own = own_values(gs)
+    outer = [v for v in top_values(gs) if v not in own]
+    nm = lambda v: spec["vals"][v]["name"]  # noqa: E731
+    produced = [v for n in gs["nodes"] for v in n["outs"]]
+    nested = [v for v in produced if spec["vals"][v].get("ty", {}).get("wrap")]
+    whole_in = [v for v in gs["inputs"]] + [nm(v) for v in outer]
+    cuts = []
+    if gs["outputs"]:
+        cuts.append((whole_in, list(gs["outputs"])))
+        cuts.append(([a if isinstance(a, str) else nm(a) for a in whole_in], [nm(v) for v in gs["outputs"]]))
+    if produced:
+        cuts.append((whole_in, produced[-2:]))
+    for _ in range(k):
+        if nested and rng.random() < 0.6:
+            # boundary inputs in the middle, at sequence / optional typed values; outputs further down
+            mid = rng.sample(nested, k=min(len(nested), rng.randrange(1, 3)))
+            later = [v for v in produced if v > max(mid)] or produced
+            outs = rng.sample(later, k=min(len(later), rng.randrange(1, 3)))
+            ins = whole_in + [v for v in mid if v not in outs]
+            if rng.random() < 0.3:
+                ins, outs = [a if isinstance(a, str) else nm(a) for a in ins], [nm(v) for v in outs]
+            cuts.append((ins, outs))
+        else:
+            cuts.append(random_cut(rng, spec))
+    return cuts
 
 
 def names_cuts(rng: random.Random, spec: dict, k: int) -> list:
@@ -2092,6 +2476,16 @@ def make_items(ctx: Ctx) -> list:
             ins = ins + [(spec["vals"][v]["name"] or v) if byname else v for v in cap]
             cuts.append((ins, outs))
         items.append(("cuts", (spec, cuts, "captured")))
+    # (T) regions with values of (nested) Sequence / Optional types: the independence clause (identity of the nested
+    # element-type objects, edits after the extraction on either side) on every successful cut
+    for k in range(ctx.pick(60, 600)):
+        r = random.Random(rng.random())
+        spec = gen_typed(r, r.randrange(2, 9))
+        spec = with_target(r, spec, ["graph", "graph", "view", "function", "sub", "graph"][k % 6])
+        if spec["target"]["kind"] == "view" and not spec.get("sorted", True):
+            spec["target"] = {"kind": "graph"}
+            spec["sorted"] = True
+        items.append(("cuts", (spec, typed_cuts(r, spec, 6), "types")))
     # (F) the counterexamples of the necessity theorems, on the real code
     for it in NECESSITY:
         items.append(("necessity", it))
@@ -2106,7 +2500,9 @@ def run(ctx: Ctx) -> None:
         "exhaustive: every cut with <= 3 inputs and <= 2 outputs over (up to 9) values of each small model; "
         "random: larger nested models x random cuts by object/name; byname: clashing/empty/missing names; views: "
         "GraphView sources with subsets, repeats, other orders; deep: nesting depth 4..6 through GRAPH/GRAPHS "
-        "attributes; necessity: the counterexamples of the C18_*_needs_* theorems on the real code; aux cases = one "
+        "attributes; types: regions whose values carry (nested) Sequence / Optional types, whole-graph cuts and cuts in "
+        "the middle at such values, every successful cut with the edit-after-extraction oracle; "
+        "necessity: the counterexamples of the C18_*_needs_* theorems on the real code; aux cases = one "
         "call of _collect_all_external_values / create_value_mapping (+ by-name resolution of every name) / "
         "_find_subgraph_bounded_by_values / analyze_implicit_usage (on graphs and on the Function object)"
     )
